@@ -233,6 +233,24 @@ func MakeExternalLocationBatch(schema *arrow.Schema, locationURL string, sha256H
 
 // serializeBatchAsIPC serializes a record batch to Arrow IPC format bytes.
 func serializeBatchAsIPC(batch arrow.RecordBatch, meta *arrow.Metadata) ([]byte, error) {
+	// Custom metadata handed over next to the batch has to travel inside the
+	// upload: the pointer batch that replaces it carries only the location.
+	if meta != nil && meta.Len() > 0 {
+		keys := append([]string{}, meta.Keys()...)
+		vals := append([]string{}, meta.Values()...)
+		if rb, ok := batch.(arrow.RecordBatchWithMetadata); ok {
+			own := rb.Metadata()
+			for i, k := range own.Keys() {
+				if meta.FindKey(k) < 0 {
+					keys = append(keys, k)
+					vals = append(vals, own.Values()[i])
+				}
+			}
+		}
+		withMeta := array.NewRecordBatchWithMetadata(batch.Schema(), batch.Columns(), batch.NumRows(), arrow.NewMetadata(keys, vals))
+		defer withMeta.Release()
+		batch = withMeta
+	}
 	var buf bytes.Buffer
 	w := ipc.NewWriter(&buf, ipc.WithSchema(batch.Schema()))
 	if err := w.Write(batch); err != nil {
@@ -307,7 +325,7 @@ func externalizeBatchCtx(
 	}
 
 	// Serialize to IPC
-	ipcData, err := serializeBatchAsIPC(batch, nil)
+	ipcData, err := serializeBatchAsIPC(batch, &meta)
 	if err != nil {
 		return batch, meta, 0, fmt.Errorf("serializing batch for external storage: %w", err)
 	}
